@@ -73,9 +73,9 @@ theorem c05_second_lowering_changes_nothing (f : Func) (hsp : f.hasSpecial = tru
 
 /-- …in particular for every function the injection API can build -/
 theorem c05_second_lowering_changes_nothing_api (f0 f : Func) (ops : List ApiOp) (h0 : ∀ x ∈ f0.body, Pristine x)
-    (hops : ∀ op ∈ ops, op.noAlt = true) (ha : applyAll f0 ops = some f) (hsp : f.hasSpecial = true) :
+    (ha : applyAll f0 ops = some f) (hsp : f.hasSpecial = true) :
     lower (resolveSpecial f) = lower f :=
-  lower_resolved_again f hsp (fun x hx => (applyAll_inScope ops f0 f hops (fun y hy => (h0 y hy).inScope) ha x hx).1.altOnly)
+  lower_resolved_again f hsp (fun x hx => (applyAll_inScope ops f0 f (fun y hy => (h0 y hy).inScope) ha x hx).altOnly)
 
 /-! non-vacuity (decided): function exit code, a block with an exit probe, a flagged `br_if`; the second lowering of the resolved
     function gives the same 17 tokens and the same count of added locals, and the resolved function carries no special list -/
